@@ -165,7 +165,6 @@ impl AdjustHeightsHeap {
 //@ impl: impl AdjustHeightsHeap
 //@ name: set_max_height_allowed
 //@ as: fn set_max_height_allowed(&mut self, new_mha: usize)
-//@ rule R8: `calculate_len(&self.queues)` => `calculate_len(&self.queues)` x1
 //@ props: C19
 //@ contract:
 //@|     requires
@@ -323,26 +322,6 @@ impl RecomputeHeap {
 //@|         final(self).length == old(self).length, // [frame]
 //@end
 
-//@extract fn RecomputeHeap::set_max_height_allowed@release
-//@ file: src/recompute_heap.rs
-//@ impl: impl RecomputeHeap
-//@ name: set_max_height_allowed
-//@ as: fn set_max_height_allowed__release(&mut self, new_max_height: usize)
-//@ cells: queues, height_lower_bound
-//@ cfg: release
-//@ rule R5: `Queue::default()` => `RQueue::default()` x1
-//@ props: C19
-//@ contract:
-//@|     requires
-//@|         old(self).wf(),
-//@|         new_max_height < 0x7fff_fffe,
-//@|         old(self).buckets_empty_from(new_max_height + 1),
-//@|     ensures
-//@|         final(self).wf(), // [invariant-preserved]
-//@|         final(self).mha() == new_max_height, // [reconfigured-limit-is-N]
-//@|         forall|i: int| 0 <= i <= new_max_height && i < old(self).queues.len() ==> final(self).queues[i] == old(self).queues[i], // [scheduled-nodes-kept]
-//@|         final(self).length == old(self).length, // [frame]
-//@end
 }
 
 
